@@ -213,6 +213,34 @@ def must_succeed(vec):
     return False
 
 
+RUNLOG = {}  # idx -> (exit status 0?, normalised output lines, non-regular input?) of every run that ended normally
+
+
+def norm_lines(text):
+    """output lines with everything run-specific removed (paths, numbers, key text): what is left is the wording"""
+    import re
+    out = set()
+    for line in text.splitlines():
+        line = line.strip()
+        if not line:
+            continue
+        line = re.sub(r"\S*/\S*", "<path>", line)
+        line = re.sub(r"[A-Za-z0-9+/]{22}==", "<key>", line)
+        line = re.sub(r"\d+", "#", line)
+        out.add(re.sub(r"\s+", " ", line))
+    return frozenset(out)
+
+
+def undiagnosed_failures(runlog):
+    """'otherwise prints a diagnostic and exits non-zero': a run that exits non-zero must print at least one line that no successful
+    run prints (wording-independent: the set of lines successful runs print is observed, not prescribed). returns failing idx list"""
+    good = set()
+    for ok, lines, _ in runlog.values():
+        if ok:
+            good |= lines
+    return [i for i, (ok, lines, dontcare) in sorted(runlog.items()) if not ok and not dontcare and lines <= good]
+
+
 def run_vector(exe, reftool, fx, vec, idx, workroot):
     rundir = os.path.join(workroot, "r%d" % idx)
     os.makedirs(rundir, exist_ok=True)
@@ -269,6 +297,8 @@ def run_vector(exe, reftool, fx, vec, idx, workroot):
             return ("crash:" + kind, "AddressSanitizer: " + kind, tail)
         ok = (rc == 0)
         wf = well_formed(vec)
+        # (with -n/--no_echo the user asked for silence: whether a failure is then still announced is a don't-care)
+        RUNLOG[idx] = (ok, norm_lines(so + "\n" + se), vec[1] in ("directory", "devnull", "fifo") or vec[6] == "n" or vec[0] in ("cluster-en",))
         if in_before is not None and (not os.path.isfile(info["in"]) or open(info["in"], "rb").read() != in_before):
             return ("input-modified", "the input file %s was changed by the run (%d bytes before, %s after) (%s)" % (os.path.basename(info["in"]), len(in_before), os.path.getsize(info["in"]) if os.path.isfile(info["in"]) else "gone", vname), tail)
         if vec[1] in ("directory", "devnull", "fifo"):
@@ -560,7 +590,7 @@ def run(pid, tier, replay=None):
     rule = ("real binary (ASan build of main.cpp + libraries from the working tree); option vectors = product of value classes "
             "mode(%d) x input(%d) x output(%d) x key(%d) x cmode(%d) x hmode(%d) x no_echo(2) x extra(3): quick = every single deviation from 4 base lines + every pair of values of two dimensions completed from 2 base lines; "
             "thorough = the full product of all value classes; one evaluation = one process run; oracle: no signal/sanitizer report, exit 0 <=> effect confirmed by the reference "
-            "(file equals documented format / plaintext restored / tag valid), mandatory outcomes only where the documentation is unambiguous; distinct = distinct vectors; "
+            "(file equals documented format / plaintext restored / tag valid), mandatory outcomes only where the documentation is unambiguous, a non-zero exit prints at least one line that no successful run prints (diagnostic, wording not prescribed); distinct = distinct vectors; "
             "plus the write-failure pass: the same binary with every write beyond N bytes failing, for every N below the complete output size, and with -o /dev/full") % tuple(len(d) for d in DIMS[:6])
     assumptions = ["interactive prompt mode (argc == 1) excluded, as the property says", "production chunk size (16 MiB): files are single-chunk; multi-chunk behaviour is C01/C02's subject",
                    "random key and IV seed are outputs: the printed key is parsed and the IV fields are read back from the written file", "reference = tools/src/reftool.cpp over ref/ref.hpp (libcrypto)"]
@@ -590,6 +620,21 @@ def run(pid, tier, replay=None):
                     return 1
                 return 0
             vec = tuple(r["vector"])
+            if r.get("diag"):  # diagnostic oracle: needs the lines successful runs print - the base lines and every single deviation from them
+                vs = [v for v in vectors("quick")][:400]
+                found = []
+                for rep in range(2):
+                    RUNLOG.clear()
+                    for k, v in enumerate(vs + [vec]):
+                        run_vector(exe, reftool, fx, v, k, workroot)
+                    found.append(len(vs) in undiagnosed_failures(RUNLOG))
+                print(json.dumps({"vector": dict(zip(DIMNAMES, vec)), "verdict": "failure-without-diagnostic" if found[0] else "holds", "deterministic": found[0] == found[1]}))
+                if found[0] != found[1]:
+                    return 3
+                if found[0]:
+                    print("VIOLATION property=%s replay=%s" % (pid, replay))
+                    return 1
+                return 0
             res = [run_vector(exe, reftool, fx, vec, k, workroot) for k in range(2)]
             print(json.dumps({"vector": dict(zip(DIMNAMES, vec)), "verdict": res[0][0] or "holds", "detail": res[0][1], "deterministic": res[0][0] == res[1][0]}))
             if res[0][0] != res[1][0]:
@@ -633,6 +678,10 @@ def run(pid, tier, replay=None):
                     viol.append({"key": key, "desc": detail + " | argv: " + " ".join(tail)[:300], "replay": {"vector": list(v)}})
                 elif len(samples) < 8 and i % (len(vecs) // 8 + 1) == 0:
                     samples.append({"vector": dict(zip(DIMNAMES, v)), "argv": " ".join(tail)[:200], "result": detail})
+        for i in undiagnosed_failures(RUNLOG):
+            outcomes["failure-without-diagnostic"] = outcomes.get("failure-without-diagnostic", 0) + 1
+            viol.append({"key": "failure-without-diagnostic", "desc": "non-zero exit, but every line printed is one that successful runs print too: no diagnostic (%s)" % " ".join("%s=%s" % kv for kv in zip(DIMNAMES, vecs[i])),
+                         "replay": {"vector": list(vecs[i]), "diag": 1}})
         cov = {"evaluations": done, "distinct_nontrivial": len(set(vecs)), "rule": rule, "samples": samples, "outcomes": outcomes, "caps_hit": capped}
         fcov, fviol = io_fault_pass(exe, reftool, fx, workroot, tier)
         cov.update(fcov)
